@@ -283,7 +283,8 @@ theorem proj_local {sys : Sys K T R} {rq : Req K T R} {sh : Shared K V T R} {b b
       have hwk' : (proj sys rq.allow b).walker =
           .walking (todo.filter fun k => rq.allow (sys.tgt k)) (vis.filter fun k => rq.allow (sys.tgt k)) := by
         simp [proj, hwk, projWalker]
-      have hv' : k ∉ vis.filter fun k => rq.allow (sys.tgt k) := fun hm => hv (List.mem_filter.1 hm).1
+      have hv' : (vis.filter fun k => rq.allow (sys.tgt k)).count k ≤ (allowedReq sys rq).extra k := by
+        rw [List.count_filter (by simpa using ha)]; exact hv
       have hst' : (proj sys rq.allow b).status = none := hst
       simp only [subFire, hwk']
       rw [if_pos ⟨hst', huo, hp, by simp [allowedReq, hw, ha], hv'⟩]
